@@ -277,28 +277,31 @@ theorem circle_onto (hf : f.length = n + 1) (id : ℕ) (c : ℝ) (hc : 0 < c) (x
 section restoring
 variable {α : Type} [Num α]
 
-/-- `update` keeps the iteration limit and the three measures of the spaces -/
+/-- `update` keeps the iteration limit, the three measures of the spaces and the full PHS list -/
 theorem update_fields (s : Sampler α) (c : α) :
     (s.update c).numIters = s.numIters ∧ (s.update c).infMeasure = s.infMeasure ∧
-    (s.update c).unMeasure = s.unMeasure ∧ (s.update c).spaceMeasure = s.spaceMeasure :=
-  ⟨rfl, rfl, rfl, rfl⟩
+    (s.update c).unMeasure = s.unMeasure ∧ (s.update c).spaceMeasure = s.spaceMeasure ∧
+    (s.update c).all = s.all :=
+  ⟨rfl, rfl, rfl, rfl, rfl⟩
 
 /-- so does `updateRestoring` -/
 theorem updateRestoring_fields (s : Sampler α) (all : List (Phs α)) (c : α) :
     (s.updateRestoring all c).numIters = s.numIters ∧
     (s.updateRestoring all c).infMeasure = s.infMeasure ∧
     (s.updateRestoring all c).unMeasure = s.unMeasure ∧
-    (s.updateRestoring all c).spaceMeasure = s.spaceMeasure :=
-  ⟨rfl, rfl, rfl, rfl⟩
+    (s.updateRestoring all c).spaceMeasure = s.spaceMeasure ∧
+    (s.updateRestoring all c).all = s.all :=
+  ⟨rfl, rfl, rfl, rfl, rfl⟩
 
 /-- `updateRestoring` depends on the sampler only through the fields it does not touch -/
 theorem updateRestoring_congr (s1 s2 : Sampler α) (all : List (Phs α)) (c : α)
     (h1 : s1.numIters = s2.numIters) (h2 : s1.infMeasure = s2.infMeasure)
-    (h3 : s1.unMeasure = s2.unMeasure) (h4 : s1.spaceMeasure = s2.spaceMeasure) :
+    (h3 : s1.unMeasure = s2.unMeasure) (h4 : s1.spaceMeasure = s2.spaceMeasure)
+    (h5 : s1.all = s2.all) :
     s1.updateRestoring all c = s2.updateRestoring all c := by
   cases s1; cases s2
-  simp only at h1 h2 h3 h4
-  subst h1 h2 h3 h4
+  simp only at h1 h2 h3 h4 h5
+  subst h1 h2 h3 h4 h5
   rfl
 
 /-- the untouched fields survive any sequence of earlier bounds -/
@@ -307,10 +310,11 @@ theorem foldl_updateRestoring_fields (all : List (Phs α)) :
       (cs.foldl (fun s c' => s.updateRestoring all c') s).numIters = s.numIters ∧
       (cs.foldl (fun s c' => s.updateRestoring all c') s).infMeasure = s.infMeasure ∧
       (cs.foldl (fun s c' => s.updateRestoring all c') s).unMeasure = s.unMeasure ∧
-      (cs.foldl (fun s c' => s.updateRestoring all c') s).spaceMeasure = s.spaceMeasure := by
+      (cs.foldl (fun s c' => s.updateRestoring all c') s).spaceMeasure = s.spaceMeasure ∧
+      (cs.foldl (fun s c' => s.updateRestoring all c') s).all = s.all := by
   intro cs
   induction cs with
-  | nil => intro s; exact ⟨rfl, rfl, rfl, rfl⟩
+  | nil => intro s; exact ⟨rfl, rfl, rfl, rfl, rfl⟩
   | cons c' cs ih =>
     intro s
     rw [List.foldl_cons]
@@ -323,8 +327,8 @@ theorem updateRestoring_history_independent (all : List (Phs α)) (cs : List α)
     (c : α) :
     (cs.foldl (fun s c' => s.updateRestoring all c') s).updateRestoring all c
       = s.updateRestoring all c := by
-  obtain ⟨h1, h2, h3, h4⟩ := foldl_updateRestoring_fields all cs s
-  exact updateRestoring_congr _ _ all c h1 h2 h3 h4
+  obtain ⟨h1, h2, h3, h4, h5⟩ := foldl_updateRestoring_fields all cs s
+  exact updateRestoring_congr _ _ all c h1 h2 h3 h4 h5
 
 /-- Contrast: the unrepaired `update` is NOT history-independent.  With two PHSs, a first bound
 that is below the second focal distance drops that PHS for good: after a later, larger bound the list
